@@ -194,6 +194,10 @@ def length_domain(ctx, rep):
                 return cur["K"]
             if tuple_arg and o[0] == "field" and o[1] == ("arg", tuple_arg[0]) and o[2] in (0, 1):
                 return cur["raw"] if o[2] == 0 else cur["a"]
+            if o[0] == "call" and re.search(r"core::str::<impl str>::len$|alloc::string::String::len$", o[1] or ""):
+                # the UTF-8 length of the text: a number of its own, not the length of the encoded bytes (they differ for every
+                # non-ASCII character) - a writer that sizes the field from it is evaluated with both equal and different values
+                return cur["U"]
             return None
         sim = vecsim.VecSim(ctx, b, rows, mod, leaf)
         if label == "string-writer":
@@ -211,7 +215,8 @@ def length_domain(ctx, rep):
         for (K, a, raw) in grid:
             cur["K"], cur["a"], cur["raw"] = K, a, raw
             branch = "aligned" if a > 1 else "fixed"
-            for L in lengths(K):
+            for L, U in [(L, U) for L in lengths(K) for U in ((L, L + 3) if label == "string-writer" else (L,))]:
+                cur["U"] = U
                 outs = sim.run(L)
                 evaluated += 1
                 outs = [o for o in outs if o.trap or o.written is not None or o.result not in ("Err",)]
